@@ -294,4 +294,85 @@ func c06CrossModule(c *Check, pool *NodePool) {
 		os.RemoveAll(dir)
 	})
 	_ = n
+	c06EnumUseSites(c, pool, root)
+}
+
+// c06EnumUseSites: an enum member whose value is known (negative, -0, large, fractional, string) reached through every
+// access form from another module, in every kind of use site whose printing depends on the printed form of the value
+// (base of **, operand of unary and binary minus, member access on the value, template hole, computed key, ...).
+// Reference: the same expression with the literal value written out.
+func c06EnumUseSites(c *Check, pool *NodePool, root string) {
+	type member struct{ name, init, lit string }
+	members := []member{{"NEG", "-1", "(-1)"}, {"NZ", "-0", "(-0)"}, {"FIVE", "5", "(5)"}, {"BIG", "1e21", "(1e21)"}, {"FRAC", "-1.5", "(-1.5)"}, {"STR", "\"s\"", "(\"s\")"}, {"ZERO", "0", "(0)"}, {"NEGBIG", "-1e21", "(-1e21)"}}
+	access := []string{"E.%s", "E[\"%s\"]", "R.%s", "R[\"%s\"]", "ns.R.%s", "ns.E.%s", "ns.R[\"%s\"]"}
+	uses := []string{"X ** 2", "2 ** X", "X.toString()", "X[\"toString\"]()", "1 - X", "1 + X", "-X", "- -X", "+X", "typeof X", "`${X}`", "[X][0]", "({[X]: 1})", "1 / X", "X ? 1 : 2", "!X", "void X", "X in {}", "X instanceof Object", "(X, 1)", "X == 1", "X?.constructor.name", "new Object(X)", "String(X)", "X < 0", "(() => X)()", "X | 0", "~X", "X .constructor === Number"}
+	var enumDecl strings.Builder
+	enumDecl.WriteString("export const enum E {")
+	for _, m := range members {
+		enumDecl.WriteString(" " + m.name + " = " + m.init + ",")
+	}
+	enumDecl.WriteString(" }\nexport enum R {")
+	for _, m := range members {
+		enumDecl.WriteString(" " + m.name + " = " + m.init + ",")
+	}
+	enumDecl.WriteString(" }\n")
+	type job struct{ expr, ref string }
+	var jobs []job
+	for _, m := range members {
+		for _, a := range access {
+			acc := fmt.Sprintf(a, m.name)
+			for _, u := range uses {
+				jobs = append(jobs, job{strings.ReplaceAll(u, "X", acc), strings.ReplaceAll(u, "X", m.lit)})
+			}
+		}
+	}
+	const B = 40
+	nb := (len(jobs) + B - 1) / B
+	c.ForEach(uint64(nb), func(w int, bi uint64) {
+		lo, hi := int(bi)*B, (int(bi)+1)*B
+		if hi > len(jobs) {
+			hi = len(jobs)
+		}
+		dir := filepath.Join(root, fmt.Sprintf("u%d", bi))
+		var body, ref []string
+		for _, j := range jobs[lo:hi] {
+			body = append(body, "() => "+j.expr)
+			ref = append(ref, "() => "+j.ref)
+		}
+		run := "(fs => fs.map(f => { try { return f() } catch (e) { return 'throw ' + e.name } }))"
+		writeTree(dir, map[string]string{
+			"enums.ts": enumDecl.String(),
+			"entry.ts": "import { E, R } from './enums';\nimport * as ns from './enums';\n(globalThis as any).__f = () => " + run + "([" + strings.Join(body, ",\n") + "]);",
+		})
+		refCode := "globalThis.__f = () => " + run + "([" + strings.Join(ref, ",\n") + "]);"
+		codes := []string{refCode}
+		names := []string{"reference"}
+		for _, cfg := range []struct {
+			name   string
+			minify bool
+			ws     bool
+		}{{"bundle", false, false}, {"bundle-minify-syntax", true, false}, {"bundle-minify-all", true, true}} {
+			r := api.Build(api.BuildOptions{EntryPoints: []string{filepath.Join(dir, "entry.ts")}, Bundle: true, Write: false, Format: api.FormatIIFE, MinifySyntax: cfg.minify, MinifyWhitespace: cfg.ws, MinifyIdentifiers: cfg.ws, LogLevel: api.LogLevelSilent, Outdir: filepath.Join(dir, "out")})
+			c.Eval(1)
+			if len(r.Errors) > 0 || len(r.OutputFiles) == 0 {
+				c.Violation(fmt.Sprintf("xmod-use-rejected:%s:%d", cfg.name, bi), map[string]interface{}{"kind": "cross-module enum use sites: bundle rejected", "config": cfg.name, "errors": jsonStr(r.Errors)})
+				continue
+			}
+			c.Distinct(string(r.OutputFiles[0].Contents))
+			codes = append(codes, string(r.OutputFiles[0].Contents))
+			names = append(names, cfg.name)
+		}
+		obs := nodeRun(pool.Get(w), []runCase{{Codes: codes, Calls: []interface{}{[]interface{}{}}, Fresh: true}})[0]
+		for k := 1; k < len(obs); k++ {
+			c.Sub("enum_use_site_batches", 1)
+			if obs[k] != obs[0] {
+				var exprs []string
+				for _, j := range jobs[lo:hi] {
+					exprs = append(exprs, j.expr)
+				}
+				c.Violation(fmt.Sprintf("xmod-use:%s:%s", names[k], exprs[0]), map[string]interface{}{"kind": "enum member used through another module behaves differently from its literal value", "config": names[k], "expressions": exprs, "output": trunc(codes[k], 3000), "expected": obs[0], "observed": obs[k]})
+			}
+		}
+		os.RemoveAll(dir)
+	})
 }
